@@ -72,6 +72,10 @@ def run(repo, rep):
                       'instead of degrading this one value to repr' % (f.name, why or 'no handler catches Exception'),
                       nontrivial=True)
     rep.floor('C14.a', n, 4)
+    # the same pipeline interpreted with failing printers (raising, TypeError inside a comment-aware printer, non-document
+    # return value; nested, repeated, below a cycle, with trailing comments) against the containment rule
+    from . import wrapper_model
+    rep.floor('C14.a:model', wrapper_model.run(repo, rep, 'C14'), 20)
 
     # predicates: user predicate calls also run under the wrapper
     # ---------------------------------------------------------------- C14.b
